@@ -49,6 +49,13 @@ type Case struct {
 	Docs      []string `json:"docs,omitempty"`
 	Via       []string `json:"via,omitempty"`
 	LoadFirst bool     `json:"load_first,omitempty"`
+	// kind "after" (after_test.go): the main document Src is rendered on one renderer (Path "load":
+	// one loaded Document) first into a writer that fails after FailAt-1 bytes (0 = not), then Repeat
+	// renders of a document needing the user template FailT, which cannot be rendered, then normally
+	FailAt int    `json:"fail_at,omitempty"`
+	FailT  string `json:"fail_t,omitempty"`
+	Repeat int    `json:"repeat,omitempty"`
+	Path   string `json:"path,omitempty"`
 	// kind "front": the file is "---\n" + FM + "---\n" + Src when HasFM, else Src (front_test.go)
 	HasFM bool   `json:"has_fm,omitempty"`
 	FM    string `json:"fm,omitempty"`
@@ -754,6 +761,8 @@ func replay(kind string, raw json.RawMessage) error {
 	switch {
 	case strings.HasPrefix(kind, "bytes"), strings.HasPrefix(kind, "Fuzz"):
 		return run.Decode(raw, checkBytes)
+	case strings.HasPrefix(kind, "after"):
+		return run.Decode(raw, func(c Case) error { return checkAfter(c, nil) })
 	case strings.HasPrefix(kind, "front"):
 		return run.Decode(raw, func(c Case) error { return checkFront(c, nil) })
 	case strings.HasPrefix(kind, "session"):
@@ -1032,6 +1041,9 @@ func TestProp(t *testing.T) {
 
 	// (4) histories: several documents on one Markdown instance, sharing link reference labels
 	run.Rapid(t, rec, "session", genSession(rec), classifySession, func(c Case) error { return checkSession(c, st) })
+
+	// (4a) what a failed or aborted render leaves behind
+	run.Rapid(t, rec, "after", genAfter(rec), classifyAfter, func(c Case) error { return checkAfter(c, st) })
 
 	// (4b) the Load path with YAML front matter and --- lines in the body
 	run.Rapid(t, rec, "front", genFront(rec), classifyFront, func(c Case) error { return checkFront(c, st) })
